@@ -17,11 +17,10 @@ let obs_of_iout (o : iout) : obs list =
    partial theorems exclude (recorded findings) *)
 type hstate = { mon : mon; mon6 : mon6; cid_changed : bool; pinger_outlived : bool; eof_cause : bool;
                 mon6r : mon6r (* C06, the REGISTER step of broker exchanges (Checkers/ChkGw6.v) *);
-                mqc : bool (* C07 trace clauses: an MQTT CONNECT has been written to the broker in this history *);
-                bok : bool (* ... and the broker has accepted one (CONNACK 0 received) *);
-                mon_m : mon; mon6_m : mon6; mon6r_m : mon6r; mqc_m : bool (* the same monitors over the MODEL's own outputs, see [step] *) }
+                mon7 : mon7 (* C07 on the observed trace alone (Checkers/ChkGw7.v) *);
+                mon_m : mon; mon6_m : mon6; mon6r_m : mon6r; mon7_m : mon7 (* the same monitors over the MODEL's own outputs, see [step] *) }
 let hstate_init = { mon = mon_init; mon6 = mon6_init; cid_changed = false; pinger_outlived = false; eof_cause = false;
-                    mon6r = mon6r_init; mqc = false; bok = false; mon_m = mon_init; mon6_m = mon6_init; mon6r_m = mon6r_init; mqc_m = false }
+                    mon6r = mon6r_init; mon7 = mon7_init; mon_m = mon_init; mon6_m = mon6_init; mon6r_m = mon6r_init; mon7_m = mon7_init }
 
 (* (property, clause) failures of one step; s' is the model's state after the step *)
 let step1 (cfg : gw_cfg) (s : gw_state) (s' : gw_state) (ev : gw_event) (iouts : iout list) (os : obs list) (h : hstate)
@@ -76,23 +75,10 @@ let step1 (cfg : gw_cfg) (s : gw_state) (s' : gw_state) (ev : gw_event) (iouts :
   let out_pre = List.exists (fun o -> match o with
       | ObSn (_, dg) -> (match read_dgram dg with Ok (Publish (_, _, _, tit, _, _, _)) -> pre_or_short tit | _ -> false)
       | _ -> false) os in
-  (* C07 as a property of the observed trace alone (the per-step checker chk_C07 needs the model's state as context and
-     is silent once the model's session is over): nothing but CONNECT is written to the broker before a CONNECT was
-     (clause 8), and CONNACK "accepted" is written to the client only after the broker accepted a CONNECT (clause 9) *)
-  let bok = h.bok || (match ev with EvMq (MqConnack (_, rc)) -> int_of_n rc = 0 | _ -> false) in
-  (* the property's exception: a QoS -1 PUBLISH with authentication disabled *)
-  let qos_m1 = not cfg.auth_enabled && (match ev with
-      | EvSn dg -> (match read_dgram dg with Ok (Publish (_, q, _, _, _, _, _)) -> int_of_n q = 3 | _ -> false)
-      | _ -> false) in
-  let (mqc, c07t) = List.fold_left (fun (mqc, f) o ->
-      match o with
-      | ObMq (_, MqConnect _, _) -> (true, f)
-      | ObMq (_, MqDisconnect, _) -> (mqc, f)                  (* closing the broker connection is no relaying *)
-      | ObMq (_, _, _) | ObMqGarbage _ -> (mqc, if mqc || qos_m1 then f else f @ [("C07", "clause8")])
-      | ObSn (_, dg) -> (mqc, (match read_dgram dg with
-          | Ok (Connack rc) when int_of_n rc = 0 && not bok -> f @ [("C07", "clause9")]
-          | _ -> f))
-      | _ -> (mqc, f)) (h.mqc, []) os in
+  (* C07 as a property of the observed trace alone (Checkers/ChkGw7.v, mon7: no model state among its arguments, so it
+     also judges what the implementation does after the model's session is over; theorem C07_trace_all_histories) *)
+  let (m7', f7) = mon7_step cfg ev os h.mon7 in
+  let c07t = List.map (fun c -> ("C07", "clause" ^ string_of_int (int_of_n c))) f7 in
   let c01 = chk_C01 cfg s ev os and c02 = chk_C02 cfg s s' ev os in
   let c32 = (if ev_pre && c01 <> [] then [("C32", "clause1")] else []) @ (if out_pre && c02 <> [] then [("C32", "clause2")] else []) in
   (tag "C14" (chk_C14 ev os) @ tag "C01" c01 @ c32 @ tag "C23" (chk_C23 os) @ c24 @ c24m
@@ -109,7 +95,7 @@ let step1 (cfg : gw_cfg) (s : gw_state) (s' : gw_state) (ev : gw_event) (iouts :
                 ("C06", if c < 10 then Printf.sprintf "clause%d class=same-id-both-directions" c
                         else if c > 20 then Printf.sprintf "clause%d class=superseded-client-exchange" (c - 20)
                         else Printf.sprintf "clause%d" (c - 10))) (f6 @ f6r),
-   { h with mon = m'; mon6 = m6'; mon6r = m6r'; mqc; bok; cid_changed; pinger_outlived; eof_cause })
+   { h with mon = m'; mon6 = m6'; mon6r = m6r'; mon7 = m7'; cid_changed; pinger_outlived; eof_cause })
 
 (* The checkers run twice per step: on the implementation's observations and on the model's own
    outputs (with monitors of their own).  A failure carries "model=fails" when the faithful model
@@ -119,7 +105,7 @@ let step1 (cfg : gw_cfg) (s : gw_state) (s' : gw_state) (ev : gw_event) (iouts :
 let step (cfg : gw_cfg) (s : gw_state) (s' : gw_state) (ev : gw_event) (iouts : iout list) (mouts : gw_out list) (h : hstate)
   : (string * string) list * hstate =
   let (fi, hi) = step1 cfg s s' ev iouts (List.concat_map obs_of_iout iouts) h in
-  let hm0 = { h with mon = h.mon_m; mon6 = h.mon6_m; mon6r = h.mon6r_m; mqc = h.mqc_m } in
+  let hm0 = { h with mon = h.mon_m; mon6 = h.mon6_m; mon6r = h.mon6r_m; mon7 = h.mon7_m } in
   let (fm, hm) = step1 cfg s s' ev [] (obs_of_outs mouts) hm0 in
   (List.map (fun (p, c) -> (p, c ^ (if List.mem (p, c) fm then " model=fails" else " model=holds"))) fi,
-   { hi with mon_m = hm.mon; mon6_m = hm.mon6; mon6r_m = hm.mon6r; mqc_m = hm.mqc })
+   { hi with mon_m = hm.mon; mon6_m = hm.mon6; mon6r_m = hm.mon6r; mon7_m = hm.mon7 })
